@@ -104,7 +104,7 @@ Qed.
 Theorem arm_is_now_plus_delay : forall now q oldMax oldDelay t s,
   qt_start t = None -> qt_start (setPreemptionTime now q oldMax oldDelay t) = Some s -> s = now + qt_delay t /\ qt_delay t <> 0.
 Proof.
-  intros now q oldMax oldDelay t s Hn H. unfold setPreemptionTime in H.
+  intros now q oldMax oldDelay t s Hn H. unfold setPreemptionTime, setPreemptionTimeF in H.
   destruct (qt_running t); [congruence|]. destruct (qt_delay t =? 0) eqn:Ed; [cbn in H; discriminate|]. apply Z.eqb_neq in Ed.
   destruct (IsZero (q_max q)); [cbn in H; discriminate|].
   destruct (StrictlyGreaterThanOrEqualsOnlyExisting (q_max q) (q_alloc q)); [cbn in H; discriminate|].
@@ -112,7 +112,7 @@ Proof.
   destruct (Equals oldMax (q_max q)).
   - destruct ((oldDelay =? 0) && (0 <? qt_delay t)); cbn in H; [inversion H; auto|congruence].
   - destruct (StrictlyGreaterThan oldMax (q_max q)); [cbn in H; inversion H; auto|].
-    destruct (StrictlyGreaterThan (q_max q) oldMax); congruence.
+    cbn [orb] in H. congruence.
 Qed.
 Theorem rearm_is_now_plus_delay : forall now enabled q t s,
   qt_start t = None -> qt_start (incAllocatedTime now enabled q t) = Some s -> s = now + qt_delay t /\ qt_delay t <> 0 /\ enabled = true /\ q_managed q = true.
